@@ -881,7 +881,7 @@ pub fn gen_scenario(rng: &mut Rng, kind: usize) -> Scenario {
     let frames = match rng.below(4) {
         0 => TREE_FRAMES,
         1 => 2 * TREE_FRAMES,
-        2 => TREE_FRAMES + HUGE_FRAMES + 17,
+        2 => TREE_FRAMES + HUGE_FRAMES + if rng.chance(1, 2) { 17 } else { 0 },
         _ => 3 * TREE_FRAMES,
     };
     let cfg = Config { frames, classes: classes.clone(), default, pol };
